@@ -20,6 +20,10 @@ CheckEdit(DS, r) ==
                     ELSE UnorderedOf(r.post) \cup DOMAIN S.ord
          IN IF ~WellFormed(DS, T) THEN "ok"  \* state already corrupted by an earlier, reported step
             ELSE IF r.res.err = "panic" THEN "panic"
+            \* a payload that names one list entry twice (same key, same content): inserting it must
+            \* fail - the second entry finds the first; upserting it is the upsert of the payload
+            ELSE IF r.op.dup /\ op.k = "insert" /\ r.res.ok THEN "payload-with-one-key-twice-inserted"
+            ELSE IF r.op.dup /\ op.k = "insert" THEN "ok"
             ELSE LET c == CASE op.k \in {"upsert", "insert", "update"} ->
                                EditCheck(DS, uno, T, op, r.res, post)
                             [] op.k = "delete" -> DeleteCheck(UnorderedOf(r.post), T, op.at, r.res, post)
